@@ -1,6 +1,7 @@
 import Pyunicorn.Model.Proto
 import Pyunicorn.Model.LineDist
 import Pyunicorn.Model.LineDistSeq
+import Pyunicorn.Model.LineDistMethods
 /-! Line-protocol driver: one request per line on stdin, one answer per line.
 The histogram requests are answered by the kernels *regenerated from the source*
 (`Generated/StructC08.lean`); `Properties/C08.lean` proves them equal to the hand model. -/
@@ -19,6 +20,8 @@ def x? (s : String) : X :=
 def xMat (s : String) : List (List X) := (splitTok s ";").map fun r => (splitTok r ",").map x?
 /-- the rounding of the request: `id` (exact) or binary64 round-to-nearest-even -/
 def rndOf (s : String) : Rat → Rat := if s == "b64" then rnd64 else id
+/-- the float structure of the kernel requests: exact, or binary64 with overflow to `inf` -/
+def opsOf (s : String) : FOps X := if s == "b64" then xOpsO rnd64 else xOps id
 
 def answer (toks : List String) : String :=
   match toks with
@@ -48,21 +51,42 @@ def answer (toks : List String) : String :=
         (accE (vMat e)) (v? eps) dim.toNat! (accM (bools m)))
   -- round 4: the same generated kernels on doubles (inf, nan, rounded differences)
   | ["xvertline_seq", rnd, n, dim, e, eps] =>
-      showNats (StructC08._vertline_dist_sequential (xOps (rndOf rnd)) n.toNat! (zeros n.toNat!)
+      showNats (StructC08._vertline_dist_sequential (opsOf rnd) n.toNat! (zeros n.toNat!)
         (accX (xMat e)) (x? eps) dim.toNat!)
   | ["xdiagline_seq", rnd, n, dim, e, eps] =>
-      showNats (StructC08._diagline_dist_sequential (xOps (rndOf rnd)) n.toNat! (zeros n.toNat!)
+      showNats (StructC08._diagline_dist_sequential (opsOf rnd) n.toNat! (zeros n.toNat!)
         (accX (xMat e)) (x? eps) dim.toNat!)
   | ["xvertline_seq_mv", rnd, n, dim, e, eps, m] =>
-      showNats (StructC08._vertline_dist_sequential_missingvalues (xOps (rndOf rnd)) n.toNat!
+      showNats (StructC08._vertline_dist_sequential_missingvalues (opsOf rnd) n.toNat!
         (zeros n.toNat!) (accX (xMat e)) (x? eps) dim.toNat! (accM (bools m)))
   | ["xdiagline_seq_mv", rnd, n, dim, e, eps, m] =>
-      showNats (StructC08._diagline_dist_sequential_missingvalues (xOps (rndOf rnd)) n.toNat!
+      showNats (StructC08._diagline_dist_sequential_missingvalues (opsOf rnd) n.toNat!
         (zeros n.toNat!) (accX (xMat e)) (x? eps) dim.toNat! (accM (bools m)))
   -- the stored matrix of `set_fixed_threshold` in double arithmetic + the NaN mask
   | ["xmatrix", rnd, dim, mv, e, eps] =>
       let emb := xMat e
       s!"{showBoolMat (fixedThresholdX (rndOf rnd) emb (x? eps) dim.toNat! (mv == "1"))} {showBools (missingMaskX emb)}"
+  -- round 5: the public methods as wholes, both storage modes:
+  -- `diagline_dist() vertline_dist() RR-numerator` for sparse_rqa = False, then True, then
+  -- `white_vertline_dist()` of the matrix mode and of the sequential mode (`raise`)
+  | ["xmethods", rnd, dim, mv, e, eps] =>
+      let o (sp : Bool) : RP := ⟨xMat e, x? eps, dim.toNat!, mv == "1", sp⟩
+      let r := rndOf rnd
+      let one (sp : Bool) : String :=
+        s!"{showNats (diaglineMethod r (o sp))} {showNats (vertlineMethod r (o sp))} {recurrenceRateNum r (o sp)}"
+      let w (sp : Bool) : String := match whiteVertlineMethod r (o sp) with
+        | some h => showNats h | none => "raise"
+      s!"{one false} {one true} {w false} {w true}"
+  -- round 5: the distance kernel of the matrix mode, THE LOOPS AS WRITTEN (`supremum_rp_loops`)
+  | ["xdistloops", rnd, n, dim, e] =>
+      let D := StructC08.supremum_rp_loops (opsOf rnd) n.toNat! dim.toNat! (accX (xMat e))
+      let sx (x : X) : String := match x with
+        | .fin q => showRat q | .pinf => "inf" | .ninf => "-inf" | .nan => "nan"
+      let rows := (List.range n.toNat!).map fun (a : Nat) =>
+        join ((List.range n.toNat!).map fun (b : Nat) => sx (D (a : Int) (b : Int)))
+      if rows.isEmpty then "-" else join rows ";"
+  -- round 5: the rounding itself, `|a - b|` of the pairs (or of `q - 0`) rounded to binary64
+  | ["rnd64", d] => showRats ((pairs d).map fun (a, b) => rnd64 (if a ≤ b then b - a else a - b))
   -- the hand model (round 1), kept executable
   | ["hand", "vertline", n, r] => showNats (LineDist.vertline (boolMat r) n.toNat!)
   | ["hand", "whitevertline", n, r] => showNats (LineDist.whiteVertline (boolMat r) n.toNat!)
